@@ -159,7 +159,12 @@ func (s *symFn) elemFor(collection ssa.Value, idx ssa.Value) *Sym {
 	if _, ok := s.isIndexPhi(phi); !ok {
 		return nil
 	}
-	return &Sym{Op: "elem", Name: s.binderName(phi.Block()), Kind: ""}
+	name := s.binderName(phi.Block())
+	if _, ok := binderColls[name]; !ok {
+		binderColls[name] = sUnknown("pending")
+		binderColls[name] = s.val(collection)
+	}
+	return &Sym{Op: "elem", Name: name, Kind: ""}
 }
 
 func (s *symFn) binderName(header *ssa.BasicBlock) string {
@@ -336,6 +341,11 @@ func (s *symFn) val1(v ssa.Value) *Sym {
 		h, _ := s.loopOf(x.Block())
 		if h == nil {
 			return sUnknown("next outside loop")
+		}
+		if r, ok := x.Iter.(*ssa.Range); ok {
+			if _, done := binderColls[s.binderName(h)]; !done {
+				binderColls[s.binderName(h)] = s.val(r.X)
+			}
 		}
 		return &Sym{Op: "next", Name: s.binderName(h)}
 	case *ssa.Call:
